@@ -616,6 +616,10 @@ send_qp(const char *buf, const off_t len)
 
 	unsigned int recodeflag = need_recode(buf, len);
 
+	/* nothing left, e.g. a multipart message that ends directly behind a boundary */
+	if (len <= 0)
+		return;
+
 	off_t off = qp_header(buf, len, &boundary, &multipart, (recodeflag & recode_qp_body));
 
 	if (!multipart) {
